@@ -619,7 +619,7 @@ func (hp *HTTPProxy) isLocalhost(host string) bool {
 	if slices.Contains(hp.localhost, host) {
 		return true
 	}
-	if ip := net.ParseIP(host); ip != nil && ip.IsLoopback() {
+	if ip := net.ParseIP(host); ip != nil && (ip.IsLoopback() || ip.IsUnspecified()) {
 		return true
 	}
 
